@@ -495,8 +495,72 @@ func checkC14Into(c *Ctx, prefix string) {
 		id, ok := d.Call.Fun.(*ast.Ident)
 		return ok && id.Name == "close" && len(d.Call.Args) == 1 && fieldSel(pinfo, d.Call.Args[0], preparedF)
 	}
+	// a delete guarded by "the map still holds the entry inserted here" evicts the failed entry whenever it
+	// is still cached: its guard's first CFG node stands for the eviction
+	ownEvict := map[ast.Node]bool{}
+	{
+		inserted := ""
+		ast.Inspect(prep.Body, func(n ast.Node) bool {
+			if as, ok := n.(*ast.AssignStmt); ok && len(as.Lhs) == 1 && len(as.Rhs) == 1 {
+				if ix, ok := unparen(as.Lhs[0]).(*ast.IndexExpr); ok && fieldSel(pinfo, ix.X, la.stmtsF) {
+					inserted = canon(pinfo, as.Rhs[0])
+				}
+			}
+			return true
+		})
+		ast.Inspect(prep.Body, func(n ast.Node) bool {
+			ifs, ok := n.(*ast.IfStmt)
+			if !ok || inserted == "" {
+				return true
+			}
+			as, ok := ifs.Init.(*ast.AssignStmt)
+			if !ok || len(as.Lhs) < 1 || len(as.Lhs) > 2 || len(as.Rhs) != 1 {
+				return true
+			}
+			ix, ok := unparen(as.Rhs[0]).(*ast.IndexExpr)
+			if !ok || !fieldSel(pinfo, ix.X, la.stmtsF) {
+				return true
+			}
+			cur, _ := as.Lhs[0].(*ast.Ident)
+			if cur == nil {
+				return true
+			}
+			deletes := false
+			for _, st := range ifs.Body.List {
+				if es, ok := st.(*ast.ExprStmt); ok {
+					if ce, ok := es.X.(*ast.CallExpr); ok {
+						if id, ok := ce.Fun.(*ast.Ident); ok && id.Name == "delete" && len(ce.Args) == 2 && fieldSel(pinfo, ce.Args[0], la.stmtsF) && canon(pinfo, ce.Args[1]) == canon(pinfo, ix.Index) {
+							deletes = true
+						}
+					}
+				}
+			}
+			if !deletes {
+				return true
+			}
+			bf := boolTable(pinfo, ifs.Cond)
+			for _, idAtom := range []string{cur.Name + " == " + inserted, inserted + " == " + cur.Name} {
+				if !bf.has(idAtom) {
+					continue
+				}
+				fixed := map[string]bool{idAtom: true}
+				if len(as.Lhs) == 2 {
+					if okid, _ := as.Lhs[1].(*ast.Ident); okid != nil && okid.Name != "_" {
+						fixed[okid.Name] = true // the own entry is present
+					}
+				}
+				if always, _ := bf.forAll(fixed, true); always {
+					ownEvict[as] = true
+				}
+			}
+			return true
+		})
+	}
 	conf := &GuardConfig{Name: "c14-prepare", Events: func(info *types.Info, n ast.Node) []string {
 		var out []string
+		if ownEvict[n] {
+			out = append(out, "delete-entry")
+		}
 		if isCloseDefer(n) {
 			out = append(out, "defer-close-prepared")
 		}
@@ -632,6 +696,19 @@ func checkC14Into(c *Ctx, prefix string) {
 			if lk == nil || lk.entry == nil {
 				return true
 			}
+			// a cache-hit arm hands the looked-up entry to the caller
+			handsOut := false
+			ast.Inspect(ifs.Body, func(x ast.Node) bool {
+				if rs, ok := x.(*ast.ReturnStmt); ok && len(rs.Results) > 0 {
+					if root := rootIdentOf(rs.Results[0]); root != nil && pinfo.Uses[root] == lk.entry {
+						handsOut = true
+					}
+				}
+				return true
+			})
+			if !handsOut {
+				return true
+			}
 			nCond++
 			bf := boolTable(pinfo, ifs.Cond)
 			okName := lk.ok.Name()
@@ -754,6 +831,89 @@ func checkC14Into(c *Ctx, prefix string) {
 		})
 		re.Check(found, f.Name(), "ErrBadConn arm after "+s.Callee.Name(), s.Call.Pos(), "closes the statement asynchronously and deletes the cache entry", "the wrapper executes a cached statement but has no ErrBadConn arm that closes it and deletes the entry: a statement bound to a dead connection stays cached")
 	}
+	// eviction by key removes only the statement this goroutine holds: between obtaining the statement and
+	// taking the write lock another goroutine may have replaced the entry for the same text (after a
+	// transaction-bound miss, an earlier eviction or a Reset); deleting that newer entry drops a statement
+	// from the map that nobody closes and makes the text be prepared a second time in the same generation
+	ro := c.Rule("C14.evict-own", "every delete of a cache entry by key is guarded by an identity test between the map's current entry and the statement held", 5)
+	for _, f := range p.FuncsOf(pkgGorm) {
+		finfo := f.Pkg.TypesInfo
+		parents := parentMap(f.Body)
+		ast.Inspect(f.Body, func(n ast.Node) bool {
+			if _, ok := n.(*ast.FuncLit); ok {
+				return false
+			}
+			del, ok := n.(*ast.CallExpr)
+			if !ok {
+				return true
+			}
+			id, _ := del.Fun.(*ast.Ident)
+			if id == nil || id.Name != "delete" || len(del.Args) != 2 || !fieldSel(finfo, del.Args[0], la.stmtsF) {
+				return true
+			}
+			c.Touch(f)
+			mapC, keyC := canon(finfo, del.Args[0]), canon(finfo, del.Args[1])
+			// lookups of the same map/key whose result the guard may compare
+			curObjs := map[types.Object]token.Pos{}
+			ast.Inspect(f.Body, func(x ast.Node) bool {
+				as, ok := x.(*ast.AssignStmt)
+				if !ok || len(as.Rhs) != 1 || len(as.Lhs) < 1 {
+					return true
+				}
+				ix, ok := unparen(as.Rhs[0]).(*ast.IndexExpr)
+				if !ok || canon(finfo, ix.X) != mapC || canon(finfo, ix.Index) != keyC {
+					return true
+				}
+				if cid, ok := as.Lhs[0].(*ast.Ident); ok && cid.Name != "_" {
+					curObjs[finfo.ObjectOf(cid)] = as.Pos()
+				}
+				return true
+			})
+			guarded := false
+			for cur := ast.Node(del); cur != nil && !guarded; cur = parents[cur] {
+				ifs, ok := parents[cur].(*ast.IfStmt)
+				if !ok || cur != ast.Node(ifs.Body) {
+					continue
+				}
+				bf := boolTable(finfo, ifs.Cond)
+				for atom, e := range bf.exprs {
+					be, ok := e.(*ast.BinaryExpr)
+					if !ok || (be.Op != token.EQL && be.Op != token.NEQ) {
+						continue
+					}
+					for _, pair := range [][2]ast.Expr{{be.X, be.Y}, {be.Y, be.X}} {
+						root := rootIdentOf(pair[0])
+						if root == nil {
+							continue
+						}
+						lookPos, isCur := curObjs[finfo.ObjectOf(root)]
+						if !isCur || isNilIdent(finfo, pair[1]) {
+							continue
+						}
+						if other := rootIdentOf(pair[1]); other != nil && finfo.ObjectOf(other) == finfo.ObjectOf(root) {
+							continue
+						}
+						// the lock is not released between the lookup and the delete
+						released := false
+						ast.Inspect(f.Body, func(x ast.Node) bool {
+							if ce, ok := x.(*ast.CallExpr); ok && lookPos < ce.Pos() && ce.Pos() < del.Pos() {
+								if fn, _ := typeutil.Callee(finfo, ce).(*types.Func); fn == la.rw["Unlock"] || fn == la.rw["RUnlock"] {
+									released = true
+								}
+							}
+							return true
+						})
+						if holds, _ := bf.forAll(map[string]bool{atom: false}, false); holds && !released {
+							guarded = true
+						}
+					}
+				}
+			}
+			ro.Check(guarded, f.Name(), "delete "+mapC+"["+keyC+"]", del.Pos(), "deleted only while the map still holds the statement this goroutine holds", "the entry is deleted by key without checking that the map still holds the statement this goroutine inserted or executed: a newer entry for the same text (another goroutine's, after a transaction-bound miss, an eviction or a Reset) is dropped without being closed - it leaks, and the text is prepared again in the same generation")
+			return true
+		})
+	}
+
 	for _, name := range []string{"Close", "Reset"} {
 		f := p.MethodDecl(pkgGorm, "PreparedStmtDB", name)
 		c.Touch(f)
@@ -849,6 +1009,26 @@ func checkC14Into(c *Ctx, prefix string) {
 			rt.Check(v != nil && canon(binfo, v) == recvName(bt), bt.Name(), "transaction shares the cache", lit.Pos(), "PreparedStmtDB: receiver", "BeginTx wraps the transaction with a different cache than the pool's")
 		}
 		rt.Check(len(lits) >= 1, bt.Name(), "wraps transactions", bt.Body.Pos(), "returns PreparedStmtTX", "BeginTx no longer wraps the transaction in a PreparedStmtTX")
+	}
+}
+
+// rootIdentOf: the identifier an address/selector/index/deref expression is rooted at.
+func rootIdentOf(e ast.Expr) *ast.Ident {
+	for {
+		switch x := unparen(e).(type) {
+		case *ast.Ident:
+			return x
+		case *ast.SelectorExpr:
+			e = x.X
+		case *ast.StarExpr:
+			e = x.X
+		case *ast.UnaryExpr:
+			e = x.X
+		case *ast.IndexExpr:
+			e = x.X
+		default:
+			return nil
+		}
 	}
 }
 
